@@ -82,6 +82,34 @@ def anchor_modules(E: Engine, pid: str) -> set:
     return {m.name for m in E.P.modules.values() if m.relpath in files}
 
 
+_IMMUTABLE_HEADS = {"int", "float", "bool", "str", "bytes", "complex", "tuple", "Tuple", "frozenset", "None", "Literal"}
+
+
+def _immutable_annotation(ann: str) -> bool:
+    """Every alternative of the (possibly Optional / union) annotation has an immutable head type."""
+    if not ann:
+        return False
+    try:
+        node = ast.parse(ann, mode="eval").body
+    except SyntaxError:
+        return False
+    alts, todo = [], [node]
+    while todo:
+        n = todo.pop()
+        if isinstance(n, ast.BinOp) and isinstance(n.op, ast.BitOr):
+            todo += [n.left, n.right]
+        elif isinstance(n, ast.Subscript) and ast.unparse(n.value).split(".")[-1] in ("Optional", "Union"):
+            todo += list(n.slice.elts) if isinstance(n.slice, ast.Tuple) else [n.slice]
+        else:
+            alts.append(n)
+    for n in alts:
+        head = n.value if isinstance(n, ast.Subscript) else n
+        name = ast.unparse(head).split(".")[-1] if not isinstance(head, ast.Constant) else str(head.value)
+        if name not in _IMMUTABLE_HEADS:
+            return False
+    return True
+
+
 def _is_stub(f) -> bool:
     real = [st for st in f.node.body if not (isinstance(st, ast.Expr) and isinstance(st.value, ast.Constant))]
     if not real or all(isinstance(st, (ast.Pass, ast.Raise)) for st in real):
@@ -189,6 +217,32 @@ def check(E: Engine, rep: Report, pid: str, rule: str = "NET", extra_modules: tu
                     rep.excepted(rule, key + "|returns-private-attribute-directly", "confirmed immutable / deliberately shared: " + DIRECT_RETURN_ALLOWED[key], E.where(f, r_))
                 else:
                     rep.violation(rule, key + "|returns-private-attribute-directly", f"{f.short} returns `self.{v.attr}` itself: unless that attribute is immutable, callers can now edit the object's own storage (a dropped copy / conversion)", E.where(f, r_))
+            # ... or an element of a private container (`self._times[i]`): fine for scalars, a shared inner list otherwise
+            if isinstance(v, ast.Subscript) and isinstance(v.value, ast.Attribute) and isinstance(v.value.value, ast.Name) and v.value.value.id == "self" and v.value.attr.startswith("_") and not v.value.attr.startswith("__"):
+                n_dir += 1
+                key = f.short
+                ann = ast.unparse(f.node.returns) if f.node.returns is not None else ""
+                if _immutable_annotation(ann):
+                    rep.ok(rule, key + "|returns-element-of-private-container", f"annotated `{ann}` (immutable)", E.where(f, r_))
+                elif key in DIRECT_RETURN_ALLOWED:
+                    rep.excepted(rule, key + "|returns-element-of-private-container", "confirmed immutable / deliberately shared: " + DIRECT_RETURN_ALLOWED[key], E.where(f, r_))
+                else:
+                    rep.violation(rule, key + "|returns-element-of-private-container", f"{f.short} returns `{ast.unparse(v)[:60]}` (an element of the object's own storage, annotated `{ann or '?'}`) itself: callers can now edit the stored container (a dropped copy / conversion such as list(...))", E.where(f, r_))
+    # CACHED: a public member computed once (`cached_property`, `lru_cache`, `cache`) hands the very same object to every
+    # caller; that is fine for immutable values only (on the tree: tuple/bool results; the cached containers are private)
+    n_cached = 0
+    for f in E.P.all_functions():
+        if f.kind == "overload" or f.module.name not in mods or f.name.startswith("_") or f.short.count(".") > 1:
+            continue  # (closures cached inside a method are private to one call)
+        decos = [ast.unparse(d).split("(")[0].split(".")[-1] for d in f.node.decorator_list]
+        if not any(d in ("cached_property", "lru_cache", "cache") for d in decos):
+            continue
+        n_cached += 1
+        ann = ast.unparse(f.node.returns) if f.node.returns is not None else ""
+        if _immutable_annotation(ann):
+            rep.ok(rule, f.short + "|cached-public-member-is-immutable", f"annotated `{ann}`", E.where(f))
+        else:
+            rep.violation(rule, f.short + "|cached-public-member-is-immutable", f"{f.short} is cached ({'/'.join(d for d in decos if d in ('cached_property', 'lru_cache', 'cache'))}) and returns `{ann or '?'}`: every caller (and the object's own methods) now receive the same mutable object, so an edit by one caller changes what the object reports afterwards", E.where(f))
     # QUANT: a rejection over an array comparison is existential -- `if np.any(<violation>): raise` or
     # `if not np.all(<requirement>): raise`.  `np.all(<violation>)` (or `not np.any(<requirement>)`) only rejects
     # inputs that are wrong everywhere and lets partly wrong ones through (12 sites on the tree, no exception).
@@ -220,4 +274,4 @@ def check(E: Engine, rep: Report, pid: str, rule: str = "NET", extra_modules: tu
             visit(n.test, False)
     if n_par < 5:
         rep.error(f"UNUSED: only {n_par} parameters inspected for {pid} (anchor modules not found?)")
-    return {"parameters_inspected": n_par, "locals_inspected": n_loc, "post_loop_reads": n_leak, "array_rejections": n_q, "direct_returns": n_dir}
+    return {"parameters_inspected": n_par, "locals_inspected": n_loc, "post_loop_reads": n_leak, "array_rejections": n_q, "direct_returns": n_dir, "cached_public_members": n_cached}
